@@ -501,6 +501,81 @@ Definition get_glyf_slice (entries : list Z) (is_long : bool) (glyf : list Z) (g
   end.
 
 (* ================================================================== *)
+(*      skrifa/src/outline/path.rs: outline -> path (quadratic part)    *)
+(* ================================================================== *)
+(* Points carry integer coordinates and the on-curve flag.  read-fonts masks the cubic bit out of the
+   point flags (no `spec_next`), so only on-curve / off-curve-quad occur for glyf outlines.  In the
+   unscaled setting the scaler stores font units in 26.6, i.e. every coordinate is a multiple of 64
+   and `midpoint_i32` ((a wrapping+ b) / 2, truncating) is exact; the shards use half font units. *)
+Definition cpt := (Z * Z * bool)%type.
+Inductive pcmd := PM (x y : Z) | PL (x y : Z) | PQ (cx cy x y : Z) | PZ.
+Definition cx_ (p : cpt) : Z := fst (fst p).
+Definition cy_ (p : cpt) : Z := snd (fst p).
+(* ContourPoint::midpoint: coordinates by PointCoord::midpoint, flags of `other` *)
+Definition cmid (a b : cpt) : cpt := (Z.quot (cx_ a + cx_ b) 2, Z.quot (cy_ a + cy_ b) 2, snd b).
+(* PendingState::emit, states Empty / PendingQuad *)
+Definition emit (st : option cpt) (p : cpt) : option cpt * list pcmd :=
+  match st with
+  | None => if snd p then (None, [PL (cx_ p) (cy_ p)]) else (Some p, [])
+  | Some q =>
+      if snd p then (None, [PQ (cx_ q) (cy_ q) (cx_ p) (cy_ p)])
+      else (Some p, [PQ (cx_ q) (cy_ q) (cx_ (cmid q p)) (cy_ (cmid q p))])
+  end.
+Fixpoint emit_all (st : option cpt) (ps : list cpt) : option cpt * list pcmd :=
+  match ps with
+  | [] => (st, [])
+  | p :: r => let '(st1, o1) := emit st p in let '(st2, o2) := emit_all st1 r in (st2, o1 ++ o2)
+  end.
+(* PendingState::finish: a pending control point is closed with the start point as an on-curve point *)
+Definition finish (st : option cpt) (start : cpt) : list pcmd :=
+  match st with
+  | None => [PZ]
+  | Some _ => snd (emit st (cx_ start, cy_ start, true)) ++ [PZ]
+  end.
+Definition draw_from (start : cpt) (seq : list cpt) : list pcmd :=
+  let '(st, o) := emit_all None seq in PM (cx_ start) (cy_ start) :: o ++ finish st start.
+(* contour_to_path; [hb] = PathStyle::HarfBuzz, otherwise PathStyle::FreeType *)
+Definition contour_to_path (hb : bool) (pts : list cpt) : list pcmd :=
+  match pts with
+  | [] => []
+  | first :: rest =>
+      if snd first then draw_from first rest
+      else if hb then
+        match rest with
+        | [] => []                                       (* single point contour: nothing is drawn *)
+        | next :: rest' =>
+            if snd next then draw_from next (rest' ++ [first; next])      (* trailing_points *)
+            else draw_from (cmid first next) (rest ++ [first])
+        end
+      else
+        let lastp := last pts first in
+        if snd lastp then draw_from lastp (removelast pts)            (* omit_last *)
+        else draw_from (cmid lastp first) pts
+  end.
+(* to_path over the whole outline: contours = end point indices; None = ToPathError::ContourOrder *)
+Fixpoint to_path_go (hb : bool) (pts : list cpt) (start_ix : Z) (ends : list Z) : option (list pcmd) :=
+  match ends with
+  | [] => Some []
+  | e :: r =>
+      if (e <? start_ix) || (zlen pts <=? e) then None
+      else
+        let c := firstn (Z.to_nat (e - start_ix + 1)) (skipn (Z.to_nat start_ix) pts) in
+        do t <- to_path_go hb pts (e + 1) r;;
+        Some (contour_to_path hb c ++ t)
+  end.
+Definition to_path (hb : bool) (pts : list cpt) (ends : list Z) : option (list pcmd) := to_path_go hb pts 0 ends.
+
+Definition ser_pcmd (c : pcmd) : list Z :=
+  match c with PM x y => [0; x; y] | PL x y => [1; x; y] | PQ a b x y => [2; a; b; x; y] | PZ => [3] end.
+Fixpoint ends_of_lens (cur : Z) (lens : list Z) : list Z :=
+  match lens with [] => [] | n :: r => (cur + n - 1) :: ends_of_lens (cur + n) r end.
+Fixpoint half_unit_points (xs ys ons : list Z) : list cpt :=
+  match xs, ys, ons with
+  | x :: xr, y :: yr, o :: orr => (2 * x, 2 * y, negb (o =? 0)) :: half_unit_points xr yr orr
+  | _, _, _ => []
+  end.
+
+(* ================================================================== *)
 (*      correspondence case format (harness/src/bin/c09.rs)            *)
 (* ================================================================== *)
 (* every list in a case is a list of chunks: literal bytes or a run *)
@@ -624,6 +699,11 @@ Definition eval_case (kind : Z) (ins : list (list Z)) : list (list Z) :=
            | None => [-2]
            | Some es => flat_map (fun i => ser_slice (get_glyf_slice es long glyf i)) (zseq (length loca))
            end]
+      end
+  | 6, [lens; xs; ys; ons; [hb]] =>                     (* skrifa unscaled draw, pen stream in half units *)
+      match to_path (negb (hb =? 0)) (half_unit_points xs ys ons) (ends_of_lens 0 lens) with
+      | None => [[-1]]
+      | Some cmds => [flat_map ser_pcmd cmds]
       end
   | _, _ => [[-999]]
   end.
